@@ -138,7 +138,16 @@ class ColumnTransformerSub(ColumnTransformer):
         return len(self.transformers)
 
 
-def build(spec, subclass=False):
+def _cols(cols, kind):
+    """a column selection as a list, a tuple or an array (scikit-learn takes any array-like of names or positions)"""
+    if kind == "tuple":
+        return tuple(cols)
+    if kind == "array":
+        return np.array(cols)
+    return list(cols)
+
+
+def build(spec, subclass=False, cols_kind="list"):
     t = spec["t"]
     if t == "leaf":
         k = spec["k"]
@@ -160,11 +169,11 @@ def build(spec, subclass=False):
                 "KMeans": lambda: KMeans(n_clusters=2, n_init=1, random_state=0),
                 "LinearDiscriminantAnalysis": lambda: LinearDiscriminantAnalysis()}[spec["k"]]()
     if t == "pipeline":
-        return (PipelineSub if subclass else Pipeline)([(_name("s"), build(s, subclass)) for s in spec["steps"]])
+        return (PipelineSub if subclass else Pipeline)([(_name("s"), build(s, subclass, cols_kind)) for s in spec["steps"]])
     if t == "union":
-        return (FeatureUnionSub if subclass else FeatureUnion)([(_name("u"), build(s, subclass)) for s in spec["members"]])
+        return (FeatureUnionSub if subclass else FeatureUnion)([(_name("u"), build(s, subclass, cols_kind)) for s in spec["members"]])
     if t == "columns":
-        return (ColumnTransformerSub if subclass else ColumnTransformer)([(_name("c"), build(tr["tr"], subclass), tr["cols"]) for tr in spec["transformers"]],
+        return (ColumnTransformerSub if subclass else ColumnTransformer)([(_name("c"), build(tr["tr"], subclass, cols_kind), _cols(tr["cols"], cols_kind)) for tr in spec["transformers"]],
                                                                          remainder=spec["remainder"])
     raise ValueError(t)
 
